@@ -173,14 +173,14 @@ def install(recorder):
         code = orig_load(self, frame, vreg, slot)
         rec = RA._ramon
         for ins in code:
-            rec.spill[id(ins)] = ("load", slot, vreg, ins)
+            rec.spill[id(ins)] = ("load", slot, vreg, ins, getattr(rec, "sv_counter", 0))
         return code
 
     def gen_store(self, frame, vreg, slot):
         code = orig_store(self, frame, vreg, slot)
         rec = RA._ramon
         for ins in code:
-            rec.spill[id(ins)] = ("store", slot, vreg, ins)
+            rec.spill[id(ins)] = ("store", slot, vreg, ins, getattr(rec, "sv_counter", 0))
         return code
 
     def frame_alloc(self, size, alignment):
@@ -196,6 +196,7 @@ def install(recorder):
     def rewrite_program(self, node):
         rec = RA._ramon
         rec.current_temps = {id(t) for t in node.temps}
+        rec.sv_counter = getattr(rec, "sv_counter", 0) + 1     # one "spilled value" per spilled node
         try:
             return orig_rewrite(self, node)
         finally:
@@ -217,7 +218,7 @@ def is_virtual(reg):
     return reg._num is None
 
 
-def physical_of(reg, cache):
+def physical_of(reg, cache, arch=None):
     """The physical register a (coloured) register stands for, or None."""
     if reg._num is not None:
         return reg
@@ -233,8 +234,17 @@ def physical_of(reg, cache):
                 if p._num == col:
                     found = p
                     break
-        except Exception:  # noqa
+        except Exception:  # noqa  (class without a ``registers`` list: use the target's class table)
             found = None
+            if arch is not None:
+                for rc in arch.info.register_classes:
+                    if issubclass(rc.typ, cls) or issubclass(cls, rc.typ):
+                        for p in rc.registers or []:
+                            if p._num == col and isinstance(p, cls):
+                                found = p
+                                break
+                    if found is not None:
+                        break
         cache[key] = found
     return cache[key]
 
@@ -421,7 +431,7 @@ def check_frame(arch, frame, snap, rec=None):
             regs[id(r)] = r
     phys = {}
     for k, r in regs.items():
-        p = physical_of(r, cache)
+        p = physical_of(r, cache, arch)
         phys[k] = p
         if is_virtual(r):
             stats["virtual_registers"] += 1
@@ -538,54 +548,58 @@ def check_frame(arch, frame, snap, rec=None):
         except Exception:  # noqa
             report("e", "removed instruction %s is no move" % m)
             continue
-        ps, pt = physical_of(s, cache), physical_of(t, cache)
+        ps, pt = physical_of(s, cache, arch), physical_of(t, cache, arch)
         if ps is None or pt is None or ps is not pt:
             report("e", "removed move %s: source %s in %s, destination %s in %s" % (
                 m, s.name, getattr(ps, "name", None), t.name, getattr(pt, "name", None)))
         if not getattr(m, "ismove", False):
             report("e", "removed instruction %s is not marked as a move" % m)
 
-    # ---- (d) spill slots
+    # ---- (d) spill slots.  The unit is the *spilled value* (one per spilled node = one call of
+    # rewrite_program); each lives in the slot that call allocated.
     if rec is not None:
-        slot_of = {}
         sl_use = [set() for _ in range(n)]
         sl_def = [set() for _ in range(n)]
-        slots = {}
+        slots = {}       # id(slot) -> slot
+        sv_slot = {}     # spilled value -> slot
         for i, ins in enumerate(instrs):
             info = rec.spill.get(id(ins))
             if not info or info[3] is not ins:
                 continue
-            kind, slot = info[0], info[1]
+            kind, slot, sv = info[0], info[1], (info[4], id(info[1]))
             slots[id(slot)] = slot
+            sv_slot[sv] = slot
             # of the (possibly several) instructions of one spill sequence only the memory access counts;
             # all of them are adjacent, so attributing the access to each is equivalent for the dataflow
             if kind == "load":
-                sl_use[i].add(id(slot))
+                sl_use[i].add(sv)
                 stats["spill_loads"] += 1
             else:
-                sl_def[i].add(id(slot))
+                sl_def[i].add(sv)
                 stats["spill_stores"] += 1
         stats["slots"] = len(slots)
-        if slots:
-            sd_in = must_defined(n, succ, pred, sl_def, set(slots), reach)
+        stats["spilled_values"] = len(sv_slot)
+        if sv_slot:
+            sd_in = must_defined(n, succ, pred, sl_def, set(sv_slot), reach)
             for i in range(n):
                 if reach[i]:
                     for k in sl_use[i]:
                         if k not in sd_in[i]:
-                            origin = rec.slot_origin.get(k) if hasattr(rec, "slot_origin") else None
+                            origin = rec.slot_origin.get(k[1]) if hasattr(rec, "slot_origin") else None
                             if input_undefined is None or origin is None or (origin & input_undefined):
                                 continue    # the spilled register itself had no definition on some path
-                            report("d1", "reload from %s can be reached without a store to that slot" % (slots[k],), i)
+                            report("d1", "reload from %s can be reached without a store of that value to the slot" % (sv_slot[k],), i)
             s_in, s_out = liveness(n, succ, pred, sl_use, sl_def)
 
             def sov(a, b):
-                return a.offset < b.offset + b.size and b.offset < a.offset + a.size
+                return a is b or (a.offset < b.offset + b.size and b.offset < a.offset + a.size)
 
             for i in range(n):
                 for k in sl_def[i]:
                     for k2 in s_out[i]:
-                        if k2 != k and sov(slots[k], slots[k2]):
-                            report("d2", "store to %s while overlapping %s holds a live value" % (slots[k], slots[k2]), i)
+                        if k2 != k and sov(sv_slot[k], sv_slot[k2]):
+                            report("d2", "store to %s while the overlapping %s holds another spilled value that is still to be reloaded" % (
+                                sv_slot[k], sv_slot[k2]), i)
         # spill slots must not overlap any other stack location of the frame either
         allslots = rec.slots.get(id(frame), [])
         spill_ids = set(slots)
